@@ -778,9 +778,11 @@ func (s *Server) netServe() error {
 							s.mu.Lock()
 							defer s.mu.Unlock()
 							s.flushAOF(false)
+							// clear the flag while still holding the lock: a
+							// command logged after this flush sets it again.
+							s.aofdirty.Store(false)
 						}()
 						verifPoint("prewrite.afterFlush")
-						s.aofdirty.Store(false)
 						verifPoint("prewrite.afterClear")
 					}
 					verifPoint("prewrite.beforeSend")
